@@ -64,9 +64,15 @@ type scriptedReader struct {
 
 func (r *scriptedReader) Read(p []byte) (int, error) {
 	if len(p) == 0 {
+		// a Read into an empty slice: a socket returns (0, nil) at once.  The framer gets that answer; if it keeps asking
+		// (nothing it does between two such reads frees any space) the iteration bound turns the spin into a verdict.
 		r.zeroBufs++
-		return 0, errSpin
+		if r.zeroBufs > 1000 {
+			return 0, errSpin
+		}
+		return 0, nil
 	}
+	r.zeroBufs = 0
 	for r.si < len(r.sched) && r.sn >= r.sched[r.si].n {
 		r.si++
 		r.sn = 0
@@ -285,6 +291,48 @@ func randSchedule(r *rand.Rand, total int) []schedItem {
 	// the reader may deliver fewer bytes than requested when the buffer is short of space: add slack
 	s = append(s, schedItem{k: 1 << 20, n: 8 + total/200000})
 	return s
+}
+
+// genAligned: block boundaries steered exactly onto the end of the receive buffer (its size is probed on the running framer):
+// equal-sized blocks whose size divides the buffer size, one block - or a whole number of blocks - per Read, more than one buffer
+// of them, so that at some Read the buffer is full to the last byte with NOTHING pending; variants with 1..3 bytes pending at that
+// moment (the first Read delivers 1..3 extra bytes and all later reads stay shifted).
+func genAligned(r *rand.Rand, idx int) *streamCase {
+	c := &streamCase{id: fmt.Sprintf("wfA%d", idx), kind: "wf-aligned"}
+	buf, ok := probeRecvBufSize()
+	if !ok {
+		buf = 32 * 8800
+	}
+	var divs []int
+	for s := 2; s <= 8800; s++ {
+		if buf%s == 0 {
+			divs = append(divs, s)
+		}
+	}
+	size := divs[len(divs)-1] // the maximum packet size when the buffer is a whole number of packets
+	if idx%3 != 0 {
+		size = divs[len(divs)/3+r.Intn(len(divs)-len(divs)/3)] // not the tiny ones: the replay cost grows with the number of reads
+	}
+	n := buf/size + 3 + r.Intn(5)
+	for i := 0; i < n; i++ {
+		b := mkBlockTotal(r, 6, size)
+		if len(b) != size { // sizes 254..256 have no exact encoding: fall back to two blocks filling the slot
+			b = append(mkBlockTotal(r, 6, size-3), byte(5), 1, byte(i))
+		}
+		c.stream = append(c.stream, b...)
+		c.blocks = append(c.blocks, len(b))
+		if len(b) != size {
+			c.blocks[len(c.blocks)-1] = size - 3
+			c.blocks = append(c.blocks, 3)
+		}
+	}
+	per := 1
+	if idx%4 == 1 && size*4 <= 8800 {
+		per = 1 + r.Intn(4)
+	}
+	shift := []int{0, 0, 1, 2, 3}[idx%5]
+	c.sched = []schedItem{{k: size*per + shift, n: 1}, {k: size * per, n: n/per + 2}, {k: 1 << 20, n: 2}}
+	return c
 }
 
 func genWellFormed(r *rand.Rand, idx int, long bool) *streamCase {
@@ -676,6 +724,9 @@ func TestStreamTrace(t *testing.T) {
 			for i := 0; i < nlong; i++ {
 				cases = append(cases, genWellFormed(r, i, true))
 			}
+			for i := 0; i < 2+nlong; i++ {
+				cases = append(cases, genAligned(r, i))
+			}
 			for i := 0; i < n; i++ {
 				cases = append(cases, genWellFormed(r, i, false))
 			}
@@ -683,6 +734,11 @@ func TestStreamTrace(t *testing.T) {
 		if strings.Contains(kinds, "adv") {
 			for i := 0; i < n; i++ {
 				cases = append(cases, genAdversarial(r, i))
+			}
+			if !strings.Contains(kinds, "wf") { // "never spins": block boundaries exactly on the end of the buffer
+				for i := 0; i < 2; i++ {
+					cases = append(cases, genAligned(r, 3*i))
+				}
 			}
 		}
 	}
